@@ -141,6 +141,7 @@ def redHistory : Op
     let ops ← ol.mapM (fun o => match o with
       | .list [.str "e"] => some (RedOp.enable : RedOp String Float)
       | .list [.str "d"] => some RedOp.disable
+      | .list [.str "s", pv] => do some (RedOp.simulate (← pv.flts?))
       | .list [.str "f", mv, vv] => do some (RedOp.fix (← parseFixed mv vv))
       | .list [.str "o", outs] => do some (RedOp.setOutputs (← outs.strs?))
       | _ => none)
